@@ -740,6 +740,16 @@ def semantics(ctx, world, rounds):
                         ctx.violation("filter-raises:" + type(e).__name__, "evaluating a filter on an entry raised instead of "
                                       "answering", {"filter": text, "short_circuit": sc, "entry_kind": model.kind, "entry": model.name,
                                                     "exc": repr(e)[:200]})
+                if isinstance(got[True], bool) and ctx.counters.get("filter_evaluations", 0) % 4 == 0:
+                    # matching is a pure function of (filter, entry): ask again
+                    try:
+                        if bool(compiled.match(entry, short_circuit=True)) != got[True] or \
+                                bool(compile_filter(text).match(entry, short_circuit=True)) != got[True]:
+                            ctx.violation("filter-verdict-not-repeatable", "the same filter on the same entry answered differently "
+                                          "the second time", {"filter": text, "entry_kind": model.kind, "entry": model.name})
+                    except Exception as e:
+                        ctx.violation("filter-raises:" + type(e).__name__, "evaluating a filter a second time raised",
+                                      {"filter": text, "entry_kind": model.kind, "exc": repr(e)[:200]})
                 ctx.count("filter_evaluations")
                 ctx.ev()
                 ctx.count("true_verdicts" if want else "false_verdicts")
